@@ -66,6 +66,12 @@ def directed_histories():
         H("file edited and reverted", [R({}), E(t2), E(t1), R({})]),
         H("file edited, run, reverted", [R({}), E(t2), R({}), E(t1), R({})]),
     ]
+    # a selection that matches no configured build (the app is blocklisted for the builder) after a run for all
+    bf = base_project()
+    bf["laze-project.yml"][0]["apps"][1]["blocklist"] = ["b1"]
+    bvs = {k: [v] for k, v in bf.items()}; bt = {k: 1 for k in bf}
+    out += [("selection without any configured build after a run for all", dict(versions=bvs, tree0=bt, ops=[R({}), R({"builders": ["b1"], "apps": ["a2"]})])),
+            ("selection without any configured build, cold and again", dict(versions=bvs, tree0=bt, ops=[R({"builders": ["b1"], "apps": ["a2"]}), R({"builders": ["b1"], "apps": ["a2"]})]))]
     # local mode from nested directories (each has its own lazefile): the local cache is keyed by the start directory
     nf = base_project()
     nf["laze-project.yml"][0]["subdirs"] = ["apps"]
